@@ -1,7 +1,9 @@
 import Mouette.Lemmas.AttrRun
 import Mouette.Lemmas.AttrHandlesRun
 import Mouette.Lemmas.AttrHandlesTotal
+import Mouette.Lemmas.AttrMulti
 import Mouette.Generated.C05
+import Mouette.Generated.C05Storage
 /-
 C05 — attributes are total maps with defaults; sparse and dense storage agree.
 
@@ -386,5 +388,118 @@ example :
     (run2 true (init2 1) ops).getLast? = some (.val [.i 1, .i 2]) ∧
     (run2 false (init2 1) ops).getLast? = some (.val [.i 9, .i 2]) := by
   refine ⟨by rfl, by rfl⟩
+
+/-! ## round 3: several attributes on one container (histories on one object)
+
+Model `Mouette.Attr.stepM` (Model/AttrMulti.lean): `on a op` steps attribute `a`, `cont op` (append / `+=` / container
+clear) steps EVERY attribute; attribute `a` is sparse for even `a`, dense for odd `a`. -/
+
+/-- P0 `multi_project`: in EVERY well-formed multi-attribute script, attribute `a` ends in exactly the state, and gives
+exactly the observations, of the single-attribute run on the script it sees (its own operations — creation, deletion and
+re-creation under the same name included — and every container operation) -/
+theorem multi_project (n0 K a : Nat) (ha : a < K) (ops : List OpM) (hwf : wfM ops = true) :
+    (finalM (initM n0 K) ops).sts[a]? = some (final (modeOf a) (init n0) (proj a ops)) ∧
+    projObs a ops (runM (initM n0 K) ops) = runObs (modeOf a) (init n0) (proj a ops) :=
+  multi_project_aux a ops _ _ hwf (initM_getElem? n0 K a ha)
+
+/-- P0 `multi_frame`: an operation on attribute `b` changes NOTHING of another attribute `a` -/
+theorem multi_frame (s : StateM) (a b : Nat) (op : Op) (hne : b ≠ a) : (stepM s (.on b op)).1.sts[a]? = s.sts[a]? := by
+  simp only [stepM]
+  cases hb : s.sts[b]? with
+  | none => rfl
+  | some stb => simp only; rw [List.getElem?_set_ne hne]
+
+/-- P0 `multi_refines`: every attribute of a multi-attribute history is a total map: the observations of dense attribute
+`a` (odd) refine the total-map specification run on the script it sees; for sparse attributes (even) the same on
+well-indexed scripts -/
+theorem multi_refines (n0 K a : Nat) (ha : a < K) (ops : List OpM) (hwf : wfM ops = true)
+    (hw : modeOf a = false → wellIndexed n0 (proj a ops) = true) :
+    Forall2 Matches (specRun (specInit n0) (proj a ops)) (projObs a ops (runM (initM n0 K) ops)) := by
+  rw [(multi_project n0 K a ha ops hwf).2]
+  cases hm : modeOf a with
+  | true => exact dense_refines n0 (proj a ops)
+  | false => exact sparse_refines n0 (proj a ops) (hw hm)
+
+/-- P0 `multi_growth_aligned`: after every well-formed multi-attribute script all attributes agree on the container size
+(the one obtained from the container operations alone), and every dense attribute has exactly that many rows -/
+theorem multi_growth_aligned (n0 K a b : Nat) (ha : a < K) (hb : b < K) (ops : List OpM) (hwf : wfM ops = true) :
+    ∃ sta stb, (finalM (initM n0 K) ops).sts[a]? = some sta ∧ (finalM (initM n0 K) ops).sts[b]? = some stb ∧
+      sta.size = stb.size ∧ Inv sta ∧
+      (∀ att n arr, sta.attr = some att → att.store = .dense n arr → n = sta.size ∧ (cellMat sta.heap arr).length = sta.size) := by
+  obtain ⟨h1, _⟩ := multi_project n0 K a ha ops hwf
+  obtain ⟨h2, _⟩ := multi_project n0 K b hb ops hwf
+  refine ⟨_, _, h1, h2, ?_, inv_final _ _ _ (inv_init n0), ?_⟩
+  · rw [final_size, final_size]; exact sizeFold_proj a b ops n0 hwf
+  · intro att n arr hat hst
+    have hinv := inv_final (modeOf a) (proj a ops) _ (inv_init n0) att hat
+    unfold StoreOk at hinv; rw [hst] at hinv; simp only at hinv
+    obtain ⟨e1, rows, e2, e3⟩ := hinv
+    exact ⟨e1, by unfold cellMat; rw [e2]; exact e3⟩
+
+/-- P0 `recreate_fresh`: deleting an attribute and creating it again under the same name starts from the default at
+every index, whatever was written before (in either storage, after any script) -/
+theorem recreate_fresh (dense : Bool) (n0 : Nat) (ops : List Op) (ty : Ty) (k : Nat) :
+    let s := final dense (init n0) (ops ++ [.delete, .create ty k none])
+    ∃ a, s.attr = some a ∧ a.ty = ty ∧ a.k = k ∧
+      ∀ i : Int, 0 ≤ i → i < (s.size : Int) → read s a i = .ok (List.replicate k ty.zero) := by
+  intro s
+  have hfin : ∀ (l1 l2 : List Op) (st : State), final dense st (l1 ++ l2) = final dense (final dense st l1) l2 := by
+    intro l1; induction l1 with
+    | nil => intro l2 st; rfl
+    | cons o r ih => intro l2 st; simp only [List.cons_append, final]; exact ih l2 _
+  have hs : s = mkAttr dense { (final dense (init n0) ops) with attr := none } ty k ty.zero := by
+    show final dense (init n0) (ops ++ [.delete, .create ty k none]) = _
+    rw [hfin]; simp only [final, step]
+  obtain ⟨hsz, a', ha', e1, e2, e3, hok, _, hl⟩ := mkAttr_spec dense { (final dense (init n0) ops) with attr := none } ty k ty.zero
+  refine ⟨a', by rw [hs]; exact ha', e1, e2, ?_⟩
+  intro i h0 hi
+  have hsize : s.size = (final dense (init n0) ops).size := by rw [hs, hsz]
+  have hmode : isDense a' = dense := by
+    have := modeOk_mkAttr dense { (final dense (init n0) ops) with attr := none } ty k ty.zero a' ha'; exact this
+  have hb := boundsFail_eq (i := i) (size := (final dense (init n0) ops).size) hmode (by simpa using hok)
+    (fun _ => inRange_iff.mpr ⟨h0, by rw [← hsize]; exact hi⟩)
+  rw [inRange_iff.mpr ⟨h0, (by rw [← hsize]; exact hi : i < ((final dense (init n0) ops).size : Int))⟩] at hb
+  rw [read_eq, hb]; simp only [Bool.not_true, Bool.false_eq_true, if_false]
+  rw [hs, hl i h0 (by rw [← hsize]; exact hi)]
+
+/-- non-vacuity (a test): a sparse and a dense attribute on one container, growth, delete and re-create -/
+example :
+    let ops : List OpM := [.on 0 (.create .int 1 none), .on 1 (.create .int 1 (some (.i 7))), .on 0 (.set 1 (.sc (.i 5))),
+      .cont .append, .on 1 (.get 2), .on 0 (.get 1), .on 0 .delete, .on 0 (.create .int 1 none), .on 0 (.get 1), .on 1 .asArray]
+    wfM ops = true ∧
+    runM (initM 2 2) ops = [.ok, .ok, .ok, .ok, .val [.i 7], .val [.i 5], .ok, .ok, .val [.i 0], .arr [[.i 7], [.i 7], [.i 7]]] := by
+  refine ⟨by decide, by rfl⟩
+
+/-! ## round 3: translated resets / growth (re-extracted from mesh_attributes.py and data_container.py on every run) -/
+
+/-- bridge `gen_storage_eq`: what the source does on growth and clear is what the model does: `_expand(m)` builds a new
+dense matrix = old rows followed by `m` default rows and adds `m` to `n_elem` (sparse: nothing); `clear()` builds a new
+dense matrix of `n_elem` default rows (sparse: empty dict); `append` / `+= list` / `+= container` expand every attribute
+by the number of appended elements, the container operand's length being read BEFORE the extension (`+= itself`) -/
+theorem gen_storage_eq :
+    (∀ (h : Heap) (a : Attr) (n arr m : Nat), a.store = .dense n arr →
+      (Generated.C05.denseExpand n m).1 = true ∧ (Generated.C05.denseExpand n m).2.2.1 = true ∧
+      (expandAttr h a m).2.store = .dense (Generated.C05.denseExpand n m).2.2.2 h.length ∧
+      cellMat (expandAttr h a m).1 h.length = cellMat h arr ++ List.replicate (Generated.C05.denseExpand n m).2.1 a.dfltRow) ∧
+    (∀ (h : Heap) (a : Attr) (data : List (Int × Nat)) (m : Nat), a.store = .sparse data →
+      Generated.C05.sparseExpandIsNoop = true ∧ expandAttr h a m = (h, a)) ∧
+    (∀ (h : Heap) (a : Attr) (n arr : Nat), a.store = .dense n arr →
+      cellMat (clearAttr h a).1 h.length = List.replicate (Generated.C05.denseClearRows n) a.dfltRow) ∧
+    (∀ (h : Heap) (a : Attr) (data : List (Int × Nat)), a.store = .sparse data →
+      Generated.C05.sparseClearIsEmptyDict = true ∧ (clearAttr h a).2.store = .sparse []) ∧
+    (∀ (dense : Bool) (s : State) (n m : Nat),
+      step dense s .append = (grow s Generated.C05.appendCount, .ok) ∧
+      step dense s (.extendList n) = (grow s (Generated.C05.extendListCount n), .ok) ∧
+      step dense s (.extendCont m) = (grow s (Generated.C05.extendContainerCount m), .ok) ∧
+      step dense s .extendSelf = (grow s (Generated.C05.extendContainerCount s.size), .ok)) := by
+  refine ⟨?_, ?_, ?_, ?_, ?_⟩
+  · intro h a n arr m hst
+    refine ⟨rfl, rfl, by simp [expandAttr, hst, Generated.C05.denseExpand], ?_⟩
+    simp only [expandAttr, hst, Generated.C05.denseExpand]; exact cellMat_new _ _
+  · intro h a data m hst; exact ⟨rfl, by simp [expandAttr, hst]⟩
+  · intro h a n arr hst
+    simp only [clearAttr, hst, Generated.C05.denseClearRows]; exact cellMat_new _ _
+  · intro h a data hst; exact ⟨rfl, by simp [clearAttr, hst]⟩
+  · intro dense s n m; exact ⟨rfl, rfl, rfl, rfl⟩
 
 end Mouette.Props.C05
